@@ -75,7 +75,13 @@ func concOp(name string, g int) string {
 		v2, e2 := concShared.ValuesForKey("b", "-x:2")
 		p := concShared.PathsForKey("d")
 		sort.Strings(p)
-		v3, e3 := concShared.ValuesForPath("doc.a[1].c.d[0]")
+		// every goroutine uses its own argument strings (state remembered per argument would be shared)
+		v3, e3 := concShared.ValuesForPath(fmt.Sprintf("doc.a[%d].c.d[%d]", g%2, (g/2)%2))
+		v4, e4 := concShared.ValuesForKey("b", fmt.Sprintf("-x:%d", g%3))
+		v3 = append(v3, v4...)
+		if e4 != nil {
+			e3 = e4
+		}
 		ex, _ := concShared.Exists("doc.z")
 		c1 := tagged.CanonList(v1)
 		sort.Strings(c1)
